@@ -47,6 +47,7 @@ def bool_facts(t, val):
         out.append(norm_rel(op, unref(t[2][0]), unref(t[2][1])))
     elif k == "call" and t[1] == "Option::is_some":
         out.append(("is_some", unref(t[2][0]), val))
+        out.extend(checked_facts(unref(t[2][0]), val))
     elif k == "call" and t[1] == "Option::is_none":
         out.append(("is_some", unref(t[2][0]), not val))
     elif k == "un" and t[1] == "Not":
@@ -55,6 +56,22 @@ def bool_facts(t, val):
         out.append(("flag", unref(t[2]), val, t))
     else:
         out.append(("bool", t, val))
+    return out
+
+
+def checked_facts(X, is_some):
+    """`a.checked_sub(b)` is Some exactly when b <= a (so a != 0 for b = 1)"""
+    out = []
+    if X[0] == "call" and X[1] == "checked_sub" and len(X[2]) == 2:
+        a, b = unref(X[2][0]), unref(X[2][1])
+        if is_some:
+            out.append(("le", b, a))
+            if b[0] == "int" and b[1] >= 1:
+                out.append(("ne", a, ("int", 0)))
+        else:
+            out.append(("lt", a, b))
+            if b == ("int", 1):
+                out.append(("eq", a, ("int", 0)))
     return out
 
 
@@ -454,11 +471,14 @@ def switch_facts(ev, ctx, bb, target_vals, is_otherwise, listed_vals):
             inner = unref(X[2][0])
             if inner[0] == "call" and inner[1] == "slice_get" and len(inner[2]) == 2:
                 out.extend(slice_get_facts(inner, {"Some"} if possible == {"Continue"} else {"None"}))
+            out.extend(checked_facts(inner, possible == {"Continue"}))
         else:
             if possible == {"Some"}:
                 out.append(("is_some", X, True))
+                out.extend(checked_facts(X, True))
             elif possible == {"None"}:
                 out.append(("is_some", X, False))
+                out.extend(checked_facts(X, False))
             if X[0] == "call" and X[1] in ("bool::then", "bool::then_some") and possible in ({"Some"}, {"None"}):
                 out.extend(bool_facts(X[2][0], possible == {"Some"}))
             if X[0] == "call" and X[1] == "slice_get" and len(X[2]) == 2:
